@@ -5390,7 +5390,7 @@ class TensorDictBase(MutableMapping):
                 if k[-1].startswith("<NJT>"):
                     njts[k] = v
                     return
-                v_pad = v.view(-1).view(torch.uint8)
+                v_pad = v.contiguous().view(-1).view(torch.uint8)
                 exp_length = stop - start
                 pad = exp_length - v_pad.numel()
                 if pad:
@@ -5481,7 +5481,11 @@ class TensorDictBase(MutableMapping):
                 if is_compiling():
                     if not v.is_contiguous():
                         v = v.clone(memory_format=torch.contiguous_format)
-                elif (stride and stride[-1] != 1) or v.storage_offset():
+                elif (
+                    (stride and stride[-1] != 1)
+                    or v.storage_offset()
+                    or not v.is_contiguous()
+                ):
                     v = v.clone(memory_format=torch.contiguous_format)
                 v, pad = _view_and_pad(v)
                 items.append(v)
